@@ -55,7 +55,8 @@ SCHEMAS = {k: v[0] for k, v in BASES.items()}
 PROFILES = {k: v[0].profiles(W) for k, v in BASES.items()}
 # (row subtotal, column subtotal) options
 SUBS = [("none", "none"), ("plain", "none"), ("hidden", "none"), ("none", "plain"), ("plain", "plain"),
-        ("view_hidden", "none"), ("view_plain", "none")]       # the same subtotal defined on the variable's view
+        ("view_hidden", "none"), ("view_plain", "none"),       # the same subtotal defined on the variable's view
+        ("sortfixed", "none")]       # rows sorted by label with the first / last element in the fixed lists
 # derived-item schemas: payload order / an explicit order on the MR dimension (different collator)
 SUBS_MRD = [("none", "none"), ("explicit", "explicit")]
 
@@ -142,6 +143,8 @@ def _transforms(sch, cfg):
             d["elements"] = hid
         if prune:
             d["prune"] = True
+        if sub[which] == "sortfixed" and role in ("cat", "mr"):
+            d["order"] = {"type": "label", "fixed": {"top": [ids[0]], "bottom": [ids[-1]]}}
         if sub[which] == "explicit" and role == "mr":
             d["order"] = {"type": "explicit", "element_ids": [it["alias"] for it in reversed(var.items)
                                                               if not it.get("derived")]}
@@ -292,7 +295,7 @@ def check(space, state):
     # OPPOSING dimension and every opposing base vector is empty (by unweighted counts -
     # hiding plays no part), or when the insertion itself is flagged hidden
     for which, (order, opp_prune, opp_emp, name) in enumerate(((ro, pc, ec, "row"), (co, pr, er, "column"))):
-        if sub[which] in ("none", "explicit") or sch.dims[which][0] != "cat":
+        if sub[which] in ("none", "explicit", "sortfixed") or sch.dims[which][0] != "cat":
             continue
         shown = any(i < 0 for i in order)
         if sub[which] in ("hidden", "view_hidden"):
